@@ -239,6 +239,9 @@ def writes_between(G, f, var_ids, guards, use):
             elif k == 'un' and e.get('op') in ('post++', 'post--', 'pre++', 'pre--'):
                 tgt = strip_lv(e['e'])
             if tgt is not None and tgt.get('k') == 'var' and tgt.get('id') in var_ids:
+                # the assignment whose own right-hand side contains the use stores after the use was evaluated
+                if k == 'bin' and any(w is use for w in walk_expr(e.get('y'))):
+                    continue
                 # a write inside a branch that always leaves (return/break/continue) and does not contain the use is not on
                 # any path from the guard to the use
                 if any(b not in G.encl.get(id(use), ()) for b in G.encl.get(id(e), ())):
